@@ -94,7 +94,7 @@ pub fn make_bases() -> Vec<(String, Xstate)> {
 }
 
 /// returns Err((key, detail)) on a violation
-fn check_program(base: &Xstate, src: &str, with_input: bool, st: &mut Stats) -> Result<(), (String, String, String)> {
+fn check_program(base: &Xstate, src: &str, with_input: bool, stack_limit: Option<usize>, st: &mut Stats) -> Result<(), (String, String, String)> {
     watch::note(src);
     let mut xs = base.clone();
     if with_input {
@@ -103,6 +103,11 @@ fn check_program(base: &Xstate, src: &str, with_input: bool, st: &mut Stats) -> 
     let _ = xs.intercept_output(true);
     xs.set_recording_enabled(true);
     let _ = xs.set_insn_limit(Some(10_000));
+    if let Some(l) = stack_limit {
+        // free places above what the start state already holds
+        let d = xs.data_depth();
+        let _ = xs.set_stack_limit(Some(d + l));
+    }
     match guarded(|| xs.compile(src)) {
         Ok(Ok(())) => {}
         Ok(Err(_)) => {
@@ -118,6 +123,7 @@ fn check_program(base: &Xstate, src: &str, with_input: bool, st: &mut Stats) -> 
     trace.push(project(&d0, &DROP));
     let log_empty_at_start = dump_get(&d0, "reverse_log").starts_with("0 ");
     let mut ended_by_error = false;
+    let mut after_failure: Option<Xstate> = None;
     let mut last_dump = d0;
     while xs.is_running() && trace.len() <= MAX_STEPS {
         if let Some(op) = opcode_at_ip_of(&xs) {
@@ -133,7 +139,7 @@ fn check_program(base: &Xstate, src: &str, with_input: bool, st: &mut Stats) -> 
             }
             Ok(Err(_)) => {
                 // a failing step is not part of the stepped history
-                xs = before;
+                after_failure = Some(std::mem::replace(&mut xs, before));
                 ended_by_error = true;
                 break;
             }
@@ -151,6 +157,7 @@ fn check_program(base: &Xstate, src: &str, with_input: bool, st: &mut Stats) -> 
     let mut seen: HashMap<u128, usize> = HashMap::new();
     let mut queue: VecDeque<(Xstate, usize, String)> = VecDeque::new();
     seen.insert(hash128(&trace[n]), n);
+    let replay_to_end = xs.clone();
     queue.push_back((xs, n, String::new()));
     while let Some((xs, pos, path)) = queue.pop_front() {
         for back in [true, false] {
@@ -198,6 +205,83 @@ fn check_program(base: &Xstate, src: &str, with_input: bool, st: &mut Stats) -> 
                 seen.insert(h, target);
                 queue.push_back((y, target, path2));
             }
+        }
+    }
+    // a source that is rejected while it is compiled leaves the machine and the recorded history as they were
+    // (checked at the end of the forward run and in the middle of the history)
+    for (label, steps_back) in [("end", 0usize), ("middle", n / 2)] {
+        let mut y = replay_to_end.clone();
+        let mut ok = true;
+        for _ in 0..steps_back {
+            if !matches!(guarded(|| y.rnext()), Ok(Ok(()))) {
+                ok = false;
+                break;
+            }
+        }
+        if !ok || (steps_back == 0 && label == "middle") {
+            continue;
+        }
+        // the list of source texts is bookkeeping for error messages (a rejected text stays listed)
+        const DROP_R: [&str; 5] = ["meter", "stdout", "code", "running", "sources_len"];
+        let before = project(&y.verif_dump_light(), &DROP_R);
+        st.transitions += 1;
+        match guarded(|| y.compile("1 no-such-word-c02 2")) {
+            Ok(Err(_)) => {
+                let after = project(&y.verif_dump_light(), &DROP_R);
+                if after != before {
+                    let mut sect = String::from("?");
+                    let mut detail = String::from("dump length differs");
+                    for (a, b) in after.lines().zip(before.lines()) {
+                        if a != b {
+                            sect = a.split('=').next().unwrap_or("?").to_string();
+                            detail = format!("after the rejected compile: `{}`, before: `{}`", truncate(a, 300), truncate(b, 300));
+                            break;
+                        }
+                    }
+                    return Err((format!("rejected-source-changes-history:{}", sect), format!("{}{}", "B".repeat(steps_back), "R"), format!("`compile(\"1 no-such-word-c02 2\")` at the {} of the history ({} steps back): {}", label, steps_back, detail)));
+                }
+                // ... and stepping back still works from there
+                if n - steps_back > 0 {
+                    let r = guarded(|| y.rnext());
+                    let target = n - steps_back - 1;
+                    let strip = |t: &str| t.lines().filter(|l| !l.starts_with("sources_len=")).collect::<Vec<_>>().join("\n");
+                    let pd = strip(&project(&y.verif_dump_light(), &DROP));
+                    if !matches!(r, Ok(Ok(()))) || pd != strip(&trace[target]) {
+                        return Err(("rejected-source-changes-history:rnext-after".into(), format!("{}{}", "B".repeat(steps_back), "RB"), format!("rnext after a rejected compile ({} steps back) gives {:?} and a state that is not the one of position {}", steps_back, r.map(|r| r.map_err(|e| err_kind(&e))), target)));
+                    }
+                }
+            }
+            Ok(Ok(())) => {}
+            Err(p) => return Err(("panic:compile-rejected".into(), String::new(), p)),
+        }
+    }
+    // the step that failed: whatever it did before failing is undone by stepping back; the rewind passes
+    // through recorded states only, in order, and reaches the start
+    if let Some(mut y) = after_failure {
+        let mut pos = n + 1;
+        let mut path = String::from("(failed step)");
+        loop {
+            let r = guarded(|| y.rnext());
+            st.transitions += 1;
+            path.push('B');
+            match r {
+                Err(p) => return Err(("panic:rnext-after-failed-step".into(), path, p)),
+                Ok(Err(_)) => break,
+                Ok(Ok(())) => {}
+            }
+            let pd = project(&y.verif_dump_light(), &DROP);
+            match (0..pos.min(n + 1)).rev().find(|i| trace[*i] == pd) {
+                Some(i) => pos = i,
+                None => {
+                    return Err(("state-differs:rnext-after-failed-step".into(), path, format!("stepping back after the failed step (history of {} steps) reached a state that is none of the recorded states before position {}", n, pos)));
+                }
+            }
+            if pos == 0 {
+                break;
+            }
+        }
+        if pos != 0 && log_empty_at_start {
+            return Err(("state-differs:rnext-after-failed-step".into(), path, format!("stepping back after the failed step stopped at position {} of {}, not at the start", pos, n)));
         }
     }
     st.states += seen.len() as u64;
@@ -266,7 +350,7 @@ pub fn run(cfg: &Cfg) -> i32 {
                                 continue;
                             }
                             nprog.fetch_add(1, Ordering::Relaxed);
-                            if let Err((key, path, detail)) = check_program(base, &src, false, &mut st) {
+                            if let Err((key, path, detail)) = check_program(base, &src, false, None, &mut st) {
                                 report(pre, &src, key, path, detail, false);
                             }
                         }
@@ -285,8 +369,17 @@ pub fn run(cfg: &Cfg) -> i32 {
         for (pre, base) in &bases {
             for src in &tpl {
                 nprog.fetch_add(1, Ordering::Relaxed);
-                if let Err((key, path, detail)) = check_program(base, src, true, &mut st) {
-                    report(pre, src, key, path, detail, true);
+                for lim in [None, Some(1usize), Some(3)] {
+                    if lim.is_some() {
+                        nprog.fetch_add(1, Ordering::Relaxed);
+                    }
+                    if let Err((key, path, detail)) = check_program(base, src, true, lim, &mut st) {
+                        let pre2 = match lim {
+                            None => pre.clone(),
+                            Some(l) => format!("{}{}set_stack_limit(depth + {})", pre, if pre.is_empty() { "" } else { " then " }, l),
+                        };
+                        report(&pre2, src, key, path, detail, true);
+                    }
                 }
             }
         }
